@@ -1,10 +1,12 @@
 (* Extraction of the executable model for the correspondence check.
    ExtrOcamlBasic only: nat, positive, N stay Coq's own inductive types. *)
 From Coq Require Import ExtrOcamlBasic.
-From Memchr Require Import Params Base.Res Base.ListX Sub.IsEqual Sub.Pair Mem.Wrappers Mem.Iter.
+From Memchr Require Import Params Base.Res Base.ListX Sub.IsEqual Sub.Pair Mem.Wrappers Mem.Iter Spec Sub.RabinKarp Sub.ShiftOr Sub.PackedPair.
 
 Extraction "extracted.ml"
   is_equal is_prefix is_suffix is_equal_raw
   pair_with_ranker pair_with_indices default_rank
   backend_find backend_rfind backend_count x86_choice
-  iter_new iter_run.
+  iter_new iter_run
+  rk_new rk_new_rev rk_find rk_rfind so_new so_find
+  pw_new pw_min pw_find pw_find_prefilter pf_new pf_find_prefilter find_spec rfind_spec.
